@@ -85,6 +85,18 @@ theorem recv_counts_exactly (c : Cfg) (a : Action) :
   rw [apply_recv]
   cases a <;> rfl
 
+/-- **Session screening comes after the receive chokepoint** (WithSessionIDValidation): a well-formed data frame of a
+    foreign session received while Selected is counted exactly like any other data frame, and only then answered with
+    S9F1 and dropped — it is never routed to a sender or to the handlers. -/
+theorem foreign_session_frame_counted_then_dropped (c : Cfg) (e fid : Nat) (hsel : c.selected = true) :
+    (apply c (.recv e (.foreign fid))).m.recv = c.m.recv + 1 ∧
+    dispatch c (.foreign fid) = (.foreignSession, none) ∧
+    (apply c (.recv e (.foreign fid))).s = c.s := by
+  refine ⟨?_, ?_, ?_⟩
+  · rw [apply_recv]; simp [counted, Frame.isData, hsel, b2n]
+  · simp [dispatch, Frame.isData, hsel, Frame.offer, missRecipient]
+  · rw [apply_s]; simp [touched, dispatch, Frame.isData, hsel, Frame.offer, missRecipient]
+
 /-- The documented counter effect of a synchronous data send, by outcome. -/
 structure Deltas (w : Sender) (o : Outcome) : Prop where
   /-- DataMsgErrCount: +1 exactly for a T3 expiry (W-bit data) or a transport write error -/
